@@ -157,6 +157,31 @@ pub fn gen_plan(seed: u64, run: u64, tier: &str) -> Plan {
     let fs = [Fsync::Always, Fsync::Always, Fsync::Periodic(0), Fsync::Periodic(100), Fsync::Never];
     let mut cfg = Cfg::gen(&mut rng, &fs);
     cfg.dim = *rng.pick(&[2usize, 3, 4, 8]);
+    if mode == "storage_faults" && run % 50 == 1 {
+        // wide batch: one batch delete over 65-140 existing documents with a fault somewhere inside its log records
+        cfg.dim = 2;
+        cfg.capacity = 1000;
+        cfg.snap_interval = 1000;
+        cfg.max_wal = 100 << 20;
+        cfg.hot_soft = 1000;
+        cfg.hot_hard = 2000;
+        let n = rng.range(65, 140);
+        let mut steps: Vec<Step> = Vec::new();
+        for id in 0..n {
+            steps.push(Step { op: OpK::Insert { id, vec: bits(&gen_vector(&mut rng, cfg.dim, 5000 + id)), meta: gen_meta(&mut rng, 5000 + id) }, faults: vec![], input_class: String::new() });
+        }
+        let errno = *rng.pick(&ERRNOS);
+        let fault = match rng.below(4) {
+            0 => RuleSpec { kind: "fdatasync".into(), role: Some("wal".into()), nth: 1, action: ActionSpec::Errno(errno) },
+            1 => RuleSpec { kind: "fsync".into(), role: Some("wal".into()), nth: 1, action: ActionSpec::Errno(errno) },
+            2 => RuleSpec { kind: "write".into(), role: Some("wal".into()), nth: rng.range(1, 3 * n) as u32, action: ActionSpec::Short(rng.range(1, 20) as usize) },
+            _ => RuleSpec { kind: "write".into(), role: Some("wal".into()), nth: rng.range(1, 3 * n) as u32, action: ActionSpec::Errno(errno) },
+        };
+        let ids: Vec<u64> = if rng.chance(1, 2) { (0..n).collect() } else { (0..n).filter(|i| i % 7 != 3).collect() };
+        steps.push(Step { op: OpK::BatchDelete { ids }, faults: vec![fault], input_class: String::new() });
+        steps.push(Step { op: OpK::Restart, faults: vec![], input_class: String::new() });
+        return Plan { cfg, steps, universe: n, env_seed: rng.next(), mode: mode.to_string() };
+    }
     let max_ops = if tier == "thorough" { 30 } else { 16 };
     let n_ops = rng.range(3, max_ops) as usize;
     let universe = rng.range(2, 7);
